@@ -26,7 +26,7 @@ TRUSTED_BASE = [
     "Lean 4.33.0 kernel (theorems re-elaborated by `lake build` on every run; thorough tier replays the declarations of the property modules and of every project-local module they import with leanchecker)",
     "axioms: at most propext, Classical.choice, Quot.sound (audited with #print axioms on every property theorem in every run); no sorry/admit/native_decide/bv_decide/implemented_by/unsafe",
     "Mathlib v4.33.0 (single modules, Proofs/ only)",
-    "the model is hand-written (lean/Model, no Mathlib); its tie to /repo is this run's correspondence check: the compiled model (lean/.lake/build/bin/driver) and the real implementation are run on the same inputs and their canonicalised outputs are compared - differential testing, it bounds what was seen",
+    "the model is hand-written (lean/Model, no Mathlib) - for C16 and the bridged parts of C08, C09, C11, C17 regenerated from the current source on every run by the ast->Lean translator (translate/, lean/Generated), which is itself trusted only as far as this run's differential comparison of the generated definitions with the real functions goes; the tie of every model to /repo is this run's correspondence check: the compiled model (lean/.lake/build/bin/driver) and the real implementation are run on the same inputs and their canonicalised outputs are compared - differential testing, it bounds what was seen",
     "IEEE-754 rounding, numpy/pandas/scipy/h5py runtimes and iterative-solver convergence are modelled or assumed, not verified",
 ]
 
